@@ -46,6 +46,16 @@ def run_rt(chk, binary, containers=("bare", "plain", "noschema", "bzip2", "crypt
         if ct == "bare":
             bare[c["name"]] = p[1]
     chk.add_eval(len(meta))
+    if len(containers) > 1:
+        # large, poorly compressible packed payloads (several bzip2 blocks / many encryption chunks): writers that accept
+        # only part of a buffer are exercised here
+        bl = ["B%d_%s lib_big %d %s" % (n_, ct, n_, ct) for n_ in (1000000, 2500000) for ct in ("plain", "bzip2", "crypto")]
+        bobs = C.run_harness(binary, bl, timeout=600, mem_gb=6)
+        for l in bl:
+            o = bobs.get(l.split(" ")[0], "MISSING")
+            if not o.startswith("OK ") or not o.endswith(" 1"):
+                chk.violations.append(("a %s-byte poorly compressible Vec<u8> saved in the %s container does not load back equal: %s" % (l.split(" ")[2], l.split(" ")[3], o[:80]), {"harness_line": l}))
+        chk.add_eval(len(bl))
     if model:
         terms = []
         for n, c in enumerate(cases):
